@@ -549,6 +549,94 @@ def r7_diagnostics_printed_literally(ctx, rep):
         raise AnalysisError("no rich Console output found (anchor vanished)")
 
 
+_INDEX_LOOP_EXAMPLE = """
+def bad(s):
+    i = 0
+    while i < len(s):
+        if s[i] == "'":
+            i = s.find("'", i + 1)
+        i += 1
+def good(s):
+    i = 0
+    while i < len(s):
+        if s[i] == "'":
+            j = s.find("'", i + 1)
+            if j == -1:
+                break
+            i = j
+        i += 1
+def good2(s):
+    i = 0
+    while i < len(s):
+        i += 2 if s[i] == "x" else 1
+"""
+
+
+def _backward_index_assignments(fn: ast.AST):
+    """(loop, assignment) for index loops `while i < len(x)` in which `i` is assigned the result of a search (`find`, `rfind`,
+    `index`) and nothing in the loop compares that result with -1 / tests it for being negative"""
+    out = []
+    for lp in ast.walk(fn):
+        if not (isinstance(lp, ast.While) and isinstance(lp.test, (ast.Compare, ast.BoolOp))):
+            continue
+        idx = None
+        for c in ast.walk(lp.test):
+            if isinstance(c, ast.Compare) and len(c.ops) == 1 and isinstance(c.ops[0], (ast.Lt, ast.LtE)) and isinstance(c.left, ast.Name) \
+                    and isinstance(c.comparators[0], ast.Call) and call_name(c.comparators[0]) == "len":
+                idx = c.left.id
+        if idx is None:
+            continue
+        for a in ast.walk(lp):
+            val = None
+            if isinstance(a, ast.Assign) and any(isinstance(t, ast.Name) and t.id == idx for t in a.targets):
+                val = a.value
+            elif isinstance(a, ast.NamedExpr) and a.target.id == idx:
+                val = a.value
+            if val is None:
+                continue
+            searches = [c for c in ast.walk(val) if isinstance(c, ast.Call) and isinstance(c.func, ast.Attribute)
+                        and c.func.attr in ("find", "rfind")]
+            if not searches:
+                continue
+            checked = any(isinstance(c, ast.Compare) and len(c.ops) == 1 and
+                          ((isinstance(c.comparators[0], ast.Constant) and c.comparators[0].value in (-1, 0)
+                            and any(isinstance(n, ast.Name) and n.id == idx for n in ast.walk(c.left)))
+                           or (isinstance(c.comparators[0], ast.UnaryOp) and isinstance(c.comparators[0].op, ast.USub)
+                               and any(isinstance(n, ast.Name) and n.id == idx for n in ast.walk(c.left))))
+                          for c in ast.walk(lp) if c is not lp.test and not any(c is x for x in ast.walk(lp.test)))
+            if not checked:
+                out.append((lp, a))
+    return out
+
+
+def r8_scanners_advance(ctx, rep):
+    """Termination: a loop that walks a line by index (`while i < len(line)`) ends because the index grows.  When the index is set
+    from a search (`i = line.find(quote, i + 1)`) it becomes -1 for text without a match - an unterminated literal - and the scan
+    starts over from the beginning, for ever.  Every such assignment needs the "not found" case handled."""
+    py = ctx.py
+    ex = ast.parse(_INDEX_LOOP_EXAMPLE)
+    got = {f.name: len(_backward_index_assignments(f)) for f in ex.body if isinstance(f, ast.FunctionDef)}
+    if got != {"bad": 1, "good": 0, "good2": 0}:
+        raise AnalysisError(f"index-loop matcher fails on its own example: {got}")
+    n_loops = 0
+    bad = 0
+    for mod, fn in py.all_functions():
+        if mod not in ("reader", "utils", "sourceform", "fixed2free2", "_markdown"):
+            continue
+        n_loops += sum(1 for lp in ast.walk(fn) if isinstance(lp, ast.While) and py.enclosing_function(lp) is fn)
+        for lp, a in _backward_index_assignments(fn):
+            if py.enclosing_function(lp) is not fn:
+                continue
+            bad += 1
+            rep.ob(f"{py.qualname(fn)}: `{ast.unparse(a)[:50]}` inside `while {ast.unparse(lp.test)[:30]}`", False,
+                   f"the loop index is set from a search that returns -1 when nothing is found, and the loop does not test for that: on "
+                   f"text without the searched character (an unterminated character literal) the index goes back to the start and the "
+                   f"scan never ends", py.nloc(a))
+    rep.ob("index loops over source text cannot be sent backwards", bad == 0, f"{n_loops} while loops inspected", "ford/utils.py")
+    if n_loops < 5:
+        raise AnalysisError("scanner loops not found")
+
+
 RULES = [
     RuleSpec("C20.R1", r1_containment, "per-file containment structure", floor=4),
     RuleSpec("C20.R2", r2_no_cross_file_state, "no partial registration, no cross-file mutable state", floor=3),
@@ -557,4 +645,5 @@ RULES = [
     RuleSpec("C20.R5", r5_regex_termination, "parse-path regexes cannot backtrack exponentially", floor=20),
     RuleSpec("C20.R6", r6_memo, "caches are functions of their key", floor=1),
     RuleSpec("C20.R7", r7_diagnostics_printed_literally, "diagnostics cannot fail on the text they report", floor=1),
+    RuleSpec("C20.R8", r8_scanners_advance, "index loops over source text cannot be sent backwards by a failed search", floor=1),
 ]
